@@ -358,7 +358,21 @@ func genDynType(rt *rapid.T, o ValOpts, depth int) TypeDesc {
 	case k == 7:
 		return TypeDesc{K: "map", Key: &str, Elem: &any_}
 	case k == 8:
-		e := TypeDesc{K: rapid.SampledFrom([]string{"int", "string", "bool", "float64"}).Draw(rt, "dynptr")}
+		// a pointer held by the interface: decoders decode *into* it when it is not nil
+		var e TypeDesc
+		switch rapid.IntRange(0, 7).Draw(rt, "dynptrk") {
+		case 0, 1, 2:
+			e = TypeDesc{K: rapid.SampledFrom([]string{"int", "string", "bool", "float64"}).Draw(rt, "dynptr")}
+		case 3, 4:
+			tg := "n,omitempty"
+			e = TypeDesc{K: "struct", Fields: []FieldDesc{{Name: "A", T: TypeDesc{K: "int"}}, {Name: "N", Tag: &tg, T: any_}, {Name: "M", T: TypeDesc{K: "map", Key: &str, Elem: &any_}}}}
+		case 5:
+			e = TypeDesc{K: "map", Key: &str, Elem: &any_}
+		case 6:
+			e = TypeDesc{K: "slice", Elem: &any_}
+		default:
+			e = any_
+		}
 		return TypeDesc{K: "ptr", Elem: &e}
 	case k == 9:
 		tg := "n,omitempty"
